@@ -36,8 +36,8 @@ def run(tier: str, seed: int) -> int:
     rng = np.random.default_rng(seed)
     work = os.path.join(tlc.SCRATCH, f"c12.{os.getpid()}")
     os.makedirs(work, exist_ok=True)
-    dn = [2008, 2009, 2012, 2013, 2016, 2049, 2098, 3006, 3007, 3008, 3009] if tier == "quick" else \
-        [2000 + n for n in list(range(6, 25)) + [49, 98, 103, 196]] + [3000 + n for n in range(6, 13)]
+    dn = [2008, 2009, 2012, 2013, 2016, 2049, 2098, 3006, 3007, 3008, 3009, 3049] if tier == "quick" else \
+        [2000 + n for n in list(range(6, 25)) + [49, 98, 103, 196]] + [3000 + n for n in list(range(6, 13)) + [49]]
     cfg = os.path.join(work, "MC_Forcing.cfg")
     tlc.write_cfg(cfg, constants={"DNSet": "{" + ",".join(map(str, dn)) + "}", "MaxMode": 4, "MaxSteps": 6}, invariants=INVS)
     res = tlc.run_tlc("MC_Forcing", cfg, workers=8, dump=True, timeout=1200)
@@ -51,7 +51,7 @@ def run(tier: str, seed: int) -> int:
         kind, D, N, km, nsteps = st["kind"], st["D"], st["N"], st["kmode"], st["n"]
         if nsteps == 0:
             continue
-        if tier == "quick" and ((nsteps != (1 if (N + km) % 2 else 5)) or (D == 3 and N > 7 and km > 1) or (N >= 49 and km != 3)):
+        if tier == "quick" and ((nsteps != (1 if (N + km) % 2 else 5)) or (D == 3 and 7 < N < 49 and km > 1) or (N >= 49 and km != 3)):
             continue
         wfac = 0 if kind == "velocity3d" else 1
         for L in ((1.0 if (N + km) % 3 else 3.0, 2 * np.pi)[: 1 if N % 2 else 2] if tier == "quick" else (2 * np.pi, 1.0, 3.0, 0.37 * 2 * np.pi)):
@@ -111,6 +111,13 @@ def run(tier: str, seed: int) -> int:
         bh = np.asarray(s.step_fourier(ex.fft(u) + s.dt * ex.fft(f)))
         if maxabs(ah - bh) > 1e-10 * (1 + maxabs(bh)):
             run_.violation(dict(key, what="step_fourier(u, f) != step_fourier(u + dt f)"), {"err": maxabs(ah - bh)})
+        # the documented forcing split does not depend on what the wrapped stepper is: around a RepeatedStepper it is one Euler kick with the
+        # effective time step followed by the repeated stepper
+        rs = ex.RepeatedStepper(s, 2)
+        a2 = np.asarray(ex.ForcedStepper(rs).step_fourier(ex.fft(u), ex.fft(f)))
+        b2 = np.asarray(rs.step_fourier(ex.fft(u) + rs.dt * ex.fft(f)))
+        if maxabs(a2 - b2) > 1e-10 * (1 + maxabs(b2)):
+            run_.violation(dict(key, what="ForcedStepper(RepeatedStepper) != RepeatedStepper(u + 2 dt f)"), {"err": maxabs(a2 - b2)})
     run_.rule = ("laminar cases: every TLC state (kind, N, injection mode, number of steps) x domain extents x orders x random (gamma, nu, drag, dt, "
                  "convection scale) replayed as ex.repeat(stepper, n)(zeros) against forcing * (exp(sigma t) - 1)/sigma on the whole field; "
                  "ForcedStepper cases per public class")
